@@ -131,12 +131,16 @@ SENTINEL = {"tag": "defTextVector", "attrs": [["device", "SENTINEL"], ["name", "
 class NetClientWorld:
     """Real Client connected (control + BLOB connection) to a stub server."""
 
-    def __init__(self, sim):
+    def __init__(self, sim, eager=None):
+        """eager: bytes the stub server pushes on the control connection as soon as it accepts it, i.e. before the client
+        has asked for anything (legal for 'any server', and what indiserver does for late joiners of a snooped device)."""
         self.sim = sim
         self.peers = []
 
         def factory():
             p = RawPeer(sim, f"srv{len(self.peers)}")
+            if not self.peers and eager:
+                p.on_connect = lambda peer: peer.send(eager)
             self.peers.append(p)
             return p
 
